@@ -217,7 +217,17 @@ def main(argv=None):
                 discharged += 1
                 continue
             if e["status"] == "unknown":
-                undecided_notes.append(f"obligation {oid}: solver unknown {e.get('reasons')}")
+                was_discharged = lock is not None and oid in lock.get("discharged", [])
+                if not was_discharged:
+                    undecided_notes.append(f"obligation {oid}: solver unknown {e.get('reasons')}")
+                    continue
+                # an obligation that was discharged on the unchanged tree and is not any more (after a retry with 4x the
+                # budget): reported as a violation; the replay file carries the query and the solver's reason
+                path, confirmed, what = replay_model(pid, oid, e, outdir)
+                if oid in known_obl:
+                    known_hits.append((oid, known_obl[oid]["what"]))
+                    continue
+                violations.append((oid, path, confirmed, what or f"no longer discharged (solver: {e.get('reasons')})"))
                 continue
             path, confirmed, what = replay_model(pid, oid, e, outdir)
             if oid in known_obl:
